@@ -768,7 +768,8 @@ impl SerializableValue {
                     args: s_lambda.args.clone(),
                     body: body_ast,
                     scope: CapturedScope::new(scope),
-                    source: Rc::from(""), // Deserialized lambdas don't have original source
+                    // The spans of the body refer to the body text it was parsed from
+                    source: Rc::from(s_lambda.body.as_str()),
                 };
 
                 Ok(heap.insert_lambda(lambda))
